@@ -310,23 +310,20 @@ impl Decoder {
                     .get(try_opt!(dict.default_crypt_filter.as_ref()).as_str())
                     .ok_or_else(|| other!("missing crypt filter entry {:?}", dict.default_crypt_filter.as_ref()))?;
 
+                // a crypt filter gives its /Length in bytes, but writers that give bits are common.
+                // no key is longer than 32 bytes, no key shorter than 40 bits: a larger number is in bits
+                let filter_bits = default.length.map(|n| if n > 32 { n } else { n * 8 });
                 match default.method {
-                    CryptMethod::V2 | CryptMethod::AESV2 => (
-                        default.length.map(|n| n.saturating_mul(8)).unwrap_or(dict.bits),
-                        default.method,
-                    ),
-                    CryptMethod::AESV3 if dict.v == 5 => (
-                        default.length.map(|n| n.saturating_mul(8)).unwrap_or(dict.bits),
-                        default.method,
-                    ),
+                    CryptMethod::V2 => (filter_bits.unwrap_or(dict.bits), default.method),
+                    // AES-128 by definition, whatever (or nothing) the dictionary says
+                    CryptMethod::AESV2 => (128, default.method),
+                    CryptMethod::AESV3 if dict.v == 5 => (filter_bits.unwrap_or(dict.bits), default.method),
                     m => err!(other!("unimplemented crypt method {:?}", m)),
                 }
             }
             v => err!(other!("unsupported V value {}", v)),
         };
-        // the key length comes from the file. crypt filters that give /Length in bits instead of bytes
-        // are common and end up as 8 times the real size (the surplus is ignored below), so the bound
-        // is generous; a zero or absurd length must not reach the ciphers or the key buffers
+        // the key length comes from the file: a zero or absurd length must not reach the ciphers or the key buffers
         if key_bits < 8 || key_bits > 8 * 256 {
             err!(other!("invalid key length {}", key_bits))
         }
